@@ -22,8 +22,9 @@ SERIALIZERS = ["serpent", "json", "marshal", "msgpack"]
 METH = {"add": "MAdd", "mul": "MMul", "get": "MGet", "sub": "MSub", "div": "MDiv", "boom": "MBoom",
         "hidden": "MHidden", "_secret": "MSecret", "__init__": "MDunder", "nosuch": "MNoSuch", "add.__call__": "MDotted",
         "__len__": "MLen", "__getitem__": "MGetItem", "gated": "MGated",
-        "__secret": "MDSecret", "__hidden__": "MDHidden", "__del__": "MDDel"}
-EXPOSED = ["add", "mul", "get", "sub", "div", "boom", "__len__", "__getitem__", "gated"]
+        "__secret": "MDSecret", "__hidden__": "MDHidden", "__del__": "MDDel", "lasterr": "MLastErr"}
+EXPOSED = ["add", "mul", "get", "sub", "div", "boom", "__len__", "__getitem__", "gated", "lasterr"]
+CARRIES_EXC = set()      # serializers that can carry an exception OBJECT inside a list result (probed per run)
 REFUSED = ["hidden", "_secret", "__init__", "nosuch", "add.__call__", "__secret", "__hidden__", "__del__"]
 NOARG = ("get", "__init__", "__len__", "__secret", "__hidden__", "__del__")
 import threading
@@ -102,6 +103,15 @@ class Env:
                 self.total += k
                 return self.total
 
+            @api.expose
+            def lasterr(self, k):           # succeeds; its VALUE is an exception object (returned, not raised)
+                self.log.append(["lasterr", k])
+                return ValueError("underflow", self.total, k)
+
+            @api.expose
+            def errlist(self):              # probe only: can this serializer carry an exception object inside a list?
+                return [ValueError("underflow", 1, 2), 3]
+
             def __hidden__(self):           # dunder-looking name, exists, not exposed
                 self.log.append(["__hidden__", 0])
                 self.total += 1000
@@ -166,6 +176,8 @@ def jsonable(v):
         return v
     if isinstance(v, (list, tuple)):
         return [jsonable(x) for x in v]
+    if isinstance(v, BaseException):
+        return {"excval": exc_canon(v)}
     return "<%s>" % type(v).__name__
 
 
@@ -336,7 +348,9 @@ def c_exn(x):
 def c_out(o):
     if o[0] == "ok":
         if isinstance(o[1], int) and not isinstance(o[1], bool):
-            return "(Ok %s)" % cZ(o[1])
+            return "(Ok (VInt %s))" % cZ(o[1])
+        if isinstance(o[1], dict) and set(o[1]) == {"excval"}:
+            return "(Ok (VExc %s))" % c_exn(o[1]["excval"])
         return None
     return "(Exc %s)" % c_exn(o[1])
 
@@ -586,7 +600,11 @@ def gen_history(rng, thorough):
     for ev in later:
         if rng.random() < 0.7:
             events.append(ev)
-    return {"kind": "hist", "ser": rng.choice(SERIALIZERS), "s0": rng.choice([0, 0, 1, 5, -3, rng.randint(-1000, 1000)]), "events": events}
+    ser = rng.choice(SERIALIZERS)
+    if ser in CARRIES_EXC and rng.random() < 0.15:
+        qs = [i for i, e in enumerate(events) if e[0] == "q"]
+        events.insert(rng.choice(qs) if qs else 0, ["q", "lasterr", rng.choice([1, 5, -2]), False])
+    return {"kind": "hist", "ser": ser, "s0": rng.choice([0, 0, 1, 5, -3, rng.randint(-1000, 1000)]), "events": events}
 
 
 def gen_gate_history(rng):
@@ -684,6 +702,9 @@ def gen_cases(ctx):
                 "s0": rng.choice([0, 0, 1, 5, 100, -3, rng.randint(-10 ** 6, 10 ** 6)]), "calls": calls}
         if not oneway and rng.random() < 0.15:
             case["submit"] = "invoke"
+        if case["ser"] in CARRIES_EXC and rng.random() < 0.15:
+            # a member that succeeds and RETURNS an exception object, anywhere in the batch
+            calls.insert(rng.randint(0, len(calls)), ["lasterr", rng.choice(ARGS), rng.random() < 0.3])
         cases.append(case)
     return cases
 
@@ -703,6 +724,13 @@ def targeted():
                     calls.insert(pos, list(f))
                     out.append({"ser": ser, "oneway": oneway, "s0": 1, "calls": calls})
             out.append({"ser": ser, "oneway": oneway, "s0": 3, "calls": [["add", 1, False], ["add", 2, False], ["__len__", 0, False], ["__getitem__", 4, True], ["add", 3, False], ["__len__", 0, False]]})
+            if ser in CARRIES_EXC:
+                # returned is not raised: an exception object as a member's VALUE, at every position, with calls after it
+                for pos in range(4):
+                    calls = [["add", 2, False], ["mul", 3, True], ["add", 5, False]]
+                    calls.insert(pos, ["lasterr", 7, False])
+                    out.append({"ser": ser, "oneway": oneway, "s0": 1, "calls": calls})
+                out.append({"ser": ser, "oneway": oneway, "s0": 1, "calls": [["lasterr", 1, False], ["lasterr", 2, True], ["sub", 10 ** 6, False], ["add", 1, False]]})
             # two failing members: only the first counts
             out.append({"ser": ser, "oneway": oneway, "s0": 2, "calls": [["add", 1, False], ["boom", 1, False], ["hidden", 1, False], ["add", 1, False]]})
             out.append({"ser": ser, "oneway": oneway, "s0": 2, "calls": [["add", 1, False], ["hidden", 1, False], ["boom", 1, False], ["add", 1, False]]})
@@ -774,6 +802,16 @@ def probe_all(res):
         res.quirks["batch_submit_fails:" + ser] = b
         if b:
             broken.add(ser)
+    CARRIES_EXC.clear()
+    for ser in SERIALIZERS:
+        try:
+            v = env().pb[ser].errlist()
+            ok = isinstance(v, (list, tuple)) and len(v) == 2 and isinstance(v[0], ValueError) and tuple(v[0].args) == ("underflow", 1, 2)
+        except Exception:
+            ok = False
+        res.quirks["carries_exception_object_in_list:" + ser] = ok
+        if ok:
+            CARRIES_EXC.add(ser)
     try:
         res.quirks["queue_survives_failed_submit"] = probe_keep()
     except Exception:
@@ -805,6 +843,7 @@ def run(ctx, model_ok=True):
 def search(ctx, broken):
     res = vlib.Result()
     try:
+        probe_all(vlib.Result())
         cases = [b["case"] for b in broken if b.get("case")] + targeted() + targeted_histories() + gen_cases(ctx) + gen_histories(ctx)
         for case in cases:
             res.seen(case)
